@@ -5,6 +5,7 @@ import re
 import subprocess
 
 import core
+from props import lrucode
 
 PROP = dict(
     id="C05",
@@ -62,6 +63,9 @@ ASSERTIONS = ["cachekey:optionFields", "cachekey:keyFields", "cachekey:conv:Sear
               "cachekey:convertToCacheOptions:body", "cachekey:reads", "cachekey:SearchUniversal:query", "cachekey:generateCacheKey",
               "cachekey:UpdateDatabase", "cachekey:get-put", "cachekey:SearchCache", "constants:typecheck", "lru:default-capacity",
               "keyjson:keyStruct", "keyjson:marshal", "keyjson:no-custom-marshalers", "keyjson:json-names", "keyjson:kinds"]
+
+# the LRU layer under the cache model is the source's control flow (Gen/LruCode.lean, Props/C12b.lean)
+ASSERTIONS += lrucode.ASSERTIONS
 
 BOOL_FACTS = ["engineNormalisesQuery", "keyNormalisesQuery", "updateInvalidates", "putMatchesGet", "putOnlyNonEmpty", "monitoredDelegates"]
 
